@@ -52,7 +52,8 @@ Theorem C12_scala_unsigned_depth_refuted :
 Proof. exact Proofs.C12.c12_scala_refuted. Qed.
 Print Assumptions C12_scala_unsigned_depth_refuted.
 
-(* Go: for every program, and every configuration without uppercase_acronyms (c12_go_dom; it also
+(* Go: for every program, and every configuration without uppercase_acronyms (c12_go_dom; configurations
+   with acronyms: C12_go_acronyms below; it also
    asks that no type name of the program itself starts with `time.` / `json.`): every package a
    declaration refers to (time. in a type at any depth, json. in the methods of a tagged enum) is in
    the import block written above the body. *)
@@ -62,6 +63,27 @@ Theorem C12_go :
     c12_good uses defs = true.
 Proof. exact Proofs.C12_Go.c12_go. Qed.
 Print Assumptions C12_go.
+
+(* Go WITH uppercase_acronyms: for every Unicode table agreeing with ASCII below 128, every program and every
+   configuration whose acronyms are alphanumeric, whose type names and type_mappings values are ASCII and whose
+   type names do not start with `time.` / `json.` (c12_go_dom_acr): the same conclusion.  The acronym rewrite
+   of go.rs:579 works on the printed text of a type; on such input it only changes the case of letters
+   (Proofs/GoAcronyms.v), so it can neither create nor destroy a `time.` / `json.` qualifier. *)
+Theorem C12_go_acronyms :
+  forall (uc : unicode), unicode_ok uc ->
+  forall (cfg : go_config) (pd : parsed) (uses defs : list str),
+    c12_go_observe uc cfg pd = Ok (uses, defs) -> c12_go_dom_acr cfg (items_of pd) = true ->
+    c12_good uses defs = true.
+Proof. exact Proofs.C12_Go.c12_go_acronyms. Qed.
+Print Assumptions C12_go_acronyms.
+
+(* the hypotheses are satisfiable with a real rewrite next to a package use *)
+Theorem C12_go_acronyms_nonvacuous :
+  c12_go_dom_acr Proofs.C12_Go.c12_go_acr_cfg (items_of Proofs.C12_Go.c12_go_acr_pd) = true /\
+  c12_go_observe uc_exec Proofs.C12_Go.c12_go_acr_cfg Proofs.C12_Go.c12_go_acr_pd =
+    Ok ([lit "time"], [lit "json"; lit "time"]).
+Proof. exact Proofs.C12_Go.c12_go_acronyms_nonvacuous. Qed.
+Print Assumptions C12_go_acronyms_nonvacuous.
 
 (* Kotlin: for every program and configuration outside the two classes (empty package name; a
    JvmInline value class), the annotations the declarations carry are imported by the header. *)
